@@ -114,14 +114,8 @@ def run(ctx, rep, tier):
 
     sink = Sink()
 
-    class CCtx:
-        prog = ctl
-        eff = ceff
-
-        def guards(self, *a, **k):
-            return ctx.__class__.guards(self, *a, **k)
-
-    cctx = CCtx()
+    from ..core import SubCtx
+    cctx = SubCtx(ctl, ceff)
     check_z1(ctl, sink, "Z1")
     check_z2(ctl, sink, "Z2", cctx)
     check_z3(cctx, ctl, ceff, sink, "Z3")
@@ -493,6 +487,32 @@ def check_unordered_var(ctx, eff, f, d, rep, rid):
     refs = eff.var_refs(f.outer, d.get("id"))
     what = "%s %s" % (qt(d).split("<")[0], d.get("name"))
     bad = None
+    t_ = qt(d) + " " + desugared(d)
+    if "iterator" in t_ or "_Node_" in t_:
+        # an iterator into an unordered container (the result of find()): looking at the element found and comparing with end()
+        # is order-insensitive; advancing it walks the unspecified order
+        for r in refs:
+            p = r.get("_p")
+            while p is not None and p.get("kind") in ("ImplicitCastExpr", "ParenExpr", "MaterializeTemporaryExpr"):
+                p = p.get("_p")
+            k = p.get("kind") if p is not None else None
+            if k == "CXXOperatorCallExpr" and callee_info(p)["name"] in ("operator!=", "operator==", "operator->", "operator*", "operator="):
+                continue
+            if k in ("DeclStmt", "CompoundStmt", None):
+                continue
+            if k == "CXXMemberCallExpr" or k == "MemberExpr":
+                continue       # it->second / it.operator->()
+            bad = (p, "iterator into an unordered container is advanced or handed on (%s)" % k)
+            break
+        init = children(d)
+        ic = canon(init[-1]) if init else None
+        if bad is None and not (ic is not None and ic[0] == "call" and ic[1] in ("find", "end", "cend")):
+            bad = (d, "iterator into an unordered container that does not come from find()")
+        if bad:
+            rep.violation(rid, bad[0], f, what, bad[1], key="%s|order of %s observed" % (f.short, d.get("name")))
+        else:
+            rep.holds(rid, d, f, what, "result of find(): %d use(s), dereference / comparison with end() only" % len(refs))
+        return
     for r in refs:
         p = r.get("_p")
         while p is not None and p.get("kind") in ("ImplicitCastExpr", "ParenExpr"):
